@@ -3,8 +3,10 @@
 (* Implementation-shaped model of BufferedPaginatedStore                   *)
 (* (buffered_paginated.go): the buffer of unit entries with its capacity   *)
 (* and compaction trigger, the slice of pages with minPageIndex, page(),   *)
-(* compact(), Add, AddWithCount, Clear, Copy, Reweight, the same-kind      *)
-(* MergeWith, and the reads that sort the buffer in place.                 *)
+(* compact(), Add, AddWithCount, Clear, Copy, Reweight, the same-kind and  *)
+(* the fallback MergeWith, Encode and DecodeAndMergeWith of a paginated    *)
+(* store's own encoding (batched index-delta decode, page-aligned          *)
+(* contiguous blocks), and the reads that sort the buffer in place.        *)
 (*                                                                         *)
 (* TLC checks that it refines the exact index->weight map (P_Refines) for  *)
 (* every history, every nondeterministic growth of the buffer's capacity   *)
@@ -92,11 +94,44 @@ Compact(p) ==
   LET p1 == CompactFrom(SortBuffer(p), 1)
   IN [p1 EXCEPT !.trig = Len(p1.buf) + PageLen]
 
-\* Add(index); newCap: the capacity append() chooses when the buffer is full (environment's choice)
+(***************************************************************************)
+(* Environment model: the capacity Go's append() gives a full []int        *)
+(* (runtime.growslice: nextslicecap, then rounded up to a malloc size      *)
+(* class, 8-byte elements).  The store's behaviour depends on cap(buffer)  *)
+(* (compaction condition of Add, batch size of the index-delta decode), so *)
+(* following a recorded execution through calls that append many entries   *)
+(* needs it.  It is NOT part of the store's contract: the model-checked    *)
+(* state machine below lets the environment choose any capacity, and only  *)
+(* Trace_Paged uses GoCap (and checks it against every logged capacity).   *)
+(***************************************************************************)
+SizeClasses == <<8, 16, 24, 32, 48, 64, 80, 96, 112, 128, 144, 160, 176, 192, 208, 224, 240, 256, 288, 320, 352, 384, 416,
+                 448, 480, 512, 576, 640, 704, 768, 896, 1024, 1152, 1280, 1408, 1536, 1792, 2048, 2304, 2688, 3072, 3200,
+                 3456, 4096, 4864, 5376, 6144, 6528, 6784, 6912, 8192, 9472, 9728, 10240, 10880, 12288, 13568, 14336,
+                 16384, 18432, 19072, 20480, 21760, 24576, 27264, 28672, 32768>>
+RoundUpSize(bytes) ==
+  IF bytes <= 32768 THEN SizeClasses[CHOOSE k \in 1..Len(SizeClasses) :
+                                       SizeClasses[k] >= bytes /\ (k = 1 \/ SizeClasses[k - 1] < bytes)]
+  ELSE ((bytes + 8191) \div 8192) * 8192
+RECURSIVE GrowLarge(_, _)
+GrowLarge(c, newLen) == LET c1 == c + (c + 768) \div 4 IN IF c1 >= newLen THEN c1 ELSE GrowLarge(c1, newLen)
+NextSliceCap(newLen, oldCap) ==
+  IF newLen > 2 * oldCap THEN newLen ELSE IF oldCap < 256 THEN 2 * oldCap ELSE GrowLarge(oldCap, newLen)
+GoCap(oldCap, newLen) == RoundUpSize(NextSliceCap(newLen, oldCap) * 8) \div 8
+
+GO == -1     \* capacity policy "as Go's runtime does" (any positive value = the environment's choice for this append)
+
+\* buffer = append(buffer, i)
+AppendBuf(p, i, newCap) ==
+  [p EXCEPT !.buf = Append(p.buf, i),
+            !.cap = IF Len(p.buf) < p.cap THEN p.cap
+                    ELSE IF newCap = GO THEN GoCap(p.cap, Len(p.buf) + 1)
+                    ELSE IF newCap > Len(p.buf) THEN newCap ELSE 2 * Len(p.buf) + 2]
+
+\* Add(index); newCap: the capacity append() chooses when the buffer is full (environment's choice, or GO)
 ImplAdd1(p, i, unit, newCap) ==
   IF Allocated(p, PageIndex(i)) THEN AddToPage(p, i, unit)
   ELSE LET p1 == IF Len(p.buf) = p.cap /\ Len(p.buf) >= p.trig THEN Compact(p) ELSE p
-       IN [p1 EXCEPT !.buf = Append(p1.buf, i), !.cap = IF Len(p1.buf) = p1.cap THEN (IF newCap > Len(p1.buf) THEN newCap ELSE 2 * Len(p1.buf) + 2) ELSE p1.cap]
+       IN AppendBuf(p1, i, newCap)
 
 \* AddWithCount(index, w) in quanta; unit == quanta of weight 1
 ImplAddW(p, i, w, unit, newCap) ==
@@ -114,8 +149,8 @@ ImplReweight(p, num, den, unit) ==
       F[k \in 0..Len(p.buf)] == IF k = 0 THEN scaled ELSE AddToPage(F[k - 1], p.buf[k], (unit * num) \div den)
   IN F[Len(p.buf)]
 
-\* MergeWith(o) of two paginated stores: pages first, then the buffered indexes one by one (capacity growth: caps[k])
-ImplMergeSame(p, o, unit, newCap) ==
+\* every allocated page of o added cell by cell into p's page of the same page index (created if needed), ascending
+MergePages(p, o) ==
   LET slots == {k \in 1..Len(o.pages) : o.pages[k] # <<>>}
       ord   == SortedSeq(slots)
       P[k \in 0..Len(ord)] ==
@@ -124,8 +159,41 @@ ImplMergeSame(p, o, unit, newCap) ==
                  q  == EnsurePage(P[k - 1], pi)
                  sl == pi - q.minPage + 1
              IN [q EXCEPT !.pages[sl] = [li \in 1..PageLen |-> q.pages[sl][li] + o.pages[ord[k]][li]]]
-      B[k \in 0..Len(o.buf)] == IF k = 0 THEN P[Len(ord)] ELSE ImplAdd1(B[k - 1], o.buf[k], unit, newCap)
+  IN P[Len(ord)]
+
+\* MergeWith(o) of two paginated stores: pages first, then the buffered indexes one by one through Add
+ImplMergeSame(p, o, unit, newCap) ==
+  LET B[k \in 0..Len(o.buf)] == IF k = 0 THEN MergePages(p, o) ELSE ImplAdd1(B[k - 1], o.buf[k], unit, newCap)
   IN B[Len(o.buf)]
+
+\* fallback MergeWith(other kind): other.ForEach(AddWithCount) - `bins` is the argument's content, visited in ascending order
+ImplMergeBins(p, bins, unit, newCap) ==
+  LET ord == SortedSeq(DOMAIN bins)
+      B[k \in 0..Len(ord)] == IF k = 0 THEN p ELSE ImplAddW(B[k - 1], ord[k], bins[ord[k]], unit, newCap)
+  IN B[Len(ord)]
+
+(***************************************************************************)
+(* DecodeAndMergeWith of what Encode() of a paginated store writes:        *)
+(* Encode compacts the source, writes its buffer as ONE index-delta block, *)
+(* then every allocated page as a contiguous-counts block (page-aligned,   *)
+(* stride 1, PageLen counts).  The index-delta decoder appends RAW to the  *)
+(* buffer (also indexes whose page exists), in batches of                  *)
+(* min(remaining, max(cap, trigger) - len) with a compaction between       *)
+(* batches; the contiguous decoder adds into the page, creating it.        *)
+(***************************************************************************)
+MaxI2(a, b) == IF a > b THEN a ELSE b
+MinI2(a, b) == IF a < b THEN a ELSE b
+
+RECURSIVE DecodeDeltas(_, _, _)
+DecodeDeltas(p, rest, newCap) ==
+  LET batch == MinI2(Len(rest), MaxI2(p.cap, p.trig) - Len(p.buf))
+      A[k \in 0..batch] == IF k = 0 THEN p ELSE AppendBuf(A[k - 1], rest[k], newCap)
+  IN IF batch = Len(rest) THEN A[batch]
+     ELSE DecodeDeltas(Compact(A[batch]), SubSeq(rest, batch + 1, Len(rest)), newCap)
+
+\* o is the source AFTER its Encode (compacted)
+ImplDecodeSame(p, o, newCap) ==
+  MergePages(IF o.buf = <<>> THEN p ELSE DecodeDeltas(p, o.buf, newCap), o)
 
 \* abstraction: buffered unit entries plus page cells
 AbsBins(p, unit) ==
@@ -157,6 +225,10 @@ CopyEv(t, s) == t # s /\ pg' = [pg EXCEPT ![t] = ImplCopy(pg[s])] /\ am' = [am E
 MergeEv(t, s) == t # s /\ \E nc \in CapChoices(pg[t]) \cup {Len(pg[t].buf) + Len(pg[s].buf) + 1} :
                     /\ pg' = [pg EXCEPT ![t] = ImplMergeSame(pg[t], pg[s], Unit, nc)]
                     /\ am' = [am EXCEPT ![t] = MergeM(am[t], am[s])]
+DecodeEv(t, s) == t # s /\ \E nc \in CapChoices(pg[t]) \cup {GO} :
+                    LET src == Compact(pg[s]) IN
+                    /\ pg' = [pg EXCEPT ![s] = src, ![t] = ImplDecodeSame(pg[t], src, nc)]
+                    /\ am' = [am EXCEPT ![t] = MergeM(am[t], am[s])]
 ReweightEv(s) == /\ Divisible(am[s], 1, 2) /\ Unit % 2 = 0
                  /\ pg' = [pg EXCEPT ![s] = ImplReweight(pg[s], 1, 2, Unit)]
                  /\ am' = [am EXCEPT ![s] = ScaleM(am[s], 1, 2)]
@@ -164,7 +236,7 @@ ReweightEv(s) == /\ Divisible(am[s], 1, 2) /\ Unit % 2 = 0
 Next ==
   \/ \E s \in Slots, i \in Keys, w \in WeightsW : AddEv(s, i, w)
   \/ \E s \in Slots : ReadEv(s) \/ EncodeEv(s) \/ ClearEv(s) \/ ReweightEv(s)
-  \/ \E s, t \in Slots : CopyEv(t, s) \/ MergeEv(t, s)
+  \/ \E s, t \in Slots : CopyEv(t, s) \/ MergeEv(t, s) \/ DecodeEv(t, s)
 
 Spec == Init /\ [][Next]_vars
 
